@@ -2,4 +2,5 @@
 pub mod engine;
 pub mod evidence;
 pub mod props;
+pub mod sel;
 pub mod util;
